@@ -14,7 +14,7 @@ import (
 // C20 — a truncated or xref-damaged file still gives up every complete object.
 
 func init() {
-	addRun("C20", "documents written by the real Writer without object streams, on non-seekable and seekable sinks (versions 1.2-2.0, human-readable or compact, xref table or xref stream, random object trees, streams with short and long bodies, direct and indirect /Length; bodies free of line-initial markers, not ending in CR/LF and without EOL+endstream); random small documents with EVERY truncation offset 0..len and every single-byte and whole-range overwrite, plus documents with 1/9/10/11/25/40 streams of >= 1 KiB whose /Length is an indirect object behind the stream (mixed with short streams and plain objects; bodies with endobj, endstream, object headers in mid-line, and — delimited only by /Length — EOL+endstream or a trailing EOL) cut at every object boundary +-2 and sampled interior offsets (all offsets in thorough), and every single-byte and whole-range overwrite of the xref table lines / xref stream data / startxref value; SequentialScan must succeed when >=1 object is complete, list every complete object at its true offset not broken, Read must give the written value, listed incomplete objects must be Broken, MakeReader+Get must give the written values after xref damage. A case is one (document, cut) or (document, overwrite) pair; non-trivial when at least one object is complete; distinct by the damaged bytes.", runC20)
+	addRun("C20", "documents written by the real Writer without object streams, on non-seekable and seekable sinks (versions 1.2-2.0, human-readable or compact, xref table or xref stream, random object trees, streams with short and long bodies, direct and indirect /Length; bodies free of line-initial markers, not ending in CR/LF and without EOL+endstream); random small documents with EVERY truncation offset 0..len and every single-byte and whole-range overwrite, plus documents with 1/9/10/11/25/40 streams of >= 1 KiB whose /Length is an indirect object behind the stream (mixed with short streams and plain objects; bodies with endobj, endstream, object headers in mid-line, and — delimited only by /Length — EOL+endstream or a trailing EOL) cut at every object boundary +-2 and sampled interior offsets (all offsets in thorough), ; documents with a filler object of 0..1100 bytes in front of small trailing objects, cut at every offset within 80 bytes of a multiple of 1024; stream bodies may end in LF/CR/CRLF; every offset up to 80 bytes behind each object is a cut; and every single-byte and whole-range overwrite of the xref table lines / xref stream data / startxref value; SequentialScan must succeed when >=1 object is complete, list every complete object at its true offset not broken, Read must give the written value, listed incomplete objects must be Broken, MakeReader+Get must give the written values after xref damage. A case is one (document, cut) or (document, overwrite) pair; non-trivial when at least one object is complete; distinct by the damaged bytes.", runC20)
 	addReplay("C20", "scan", replayC20)
 }
 
@@ -78,6 +78,8 @@ type hisWritten struct {
 	// nasty: the body contains EOL+endstream or ends in an EOL; when such a stream is cut off,
 	// what is left may look like a complete (shorter) stream object
 	nasty bool
+	// trailEOL: a stream whose body ends in CR or LF
+	trailEOL bool
 }
 
 type hisDoc struct {
@@ -148,7 +150,16 @@ func hisStreamBody(r *Rand) []byte {
 	case 2:
 		n = 1020 + r.Intn(8)
 	}
-	return hisFillBody(r, n)
+	return hisTrailEOL(r, hisFillBody(r, n))
+}
+
+// hisTrailEOL: one body in three ends in LF, CR, CR LF or two EOLs (the exact bytes must come
+// back whenever /Length is available)
+func hisTrailEOL(r *Rand, b []byte) []byte {
+	if r.P(1, 3) {
+		b = append(b, Pick(r, []string{"\n", "\r", "\r\n", "\n\n", "\r\r\n", "x\n"})...)
+	}
+	return b
 }
 
 func hisFillBody(r *Rand, n int) []byte {
@@ -257,11 +268,15 @@ func hisWriteDoc(r *Rand, kind string) (doc *hisDoc, err error) {
 		nLong, _ = strconv.Atoi(k)
 		seekable = strings.HasSuffix(kind, "s")
 	}
+	pad := -1
+	if strings.HasPrefix(kind, "p") {
+		pad, _ = strconv.Atoi(kind[1:])
+	}
 	small := kind == "r1" || kind == "1"
 	versions := []pdf.Version{pdf.V1_2, pdf.V1_4, pdf.V1_7, pdf.V2_0, pdf.V1_5}
 	v := Pick(r, versions)
 	opt := &pdf.WriterOptions{HumanReadable: r.Bool()}
-	if nLong >= 25 {
+	if nLong >= 25 || pad >= 0 {
 		opt.HumanReadable = false
 	}
 	if v >= pdf.V2_0 || r.P(1, 3) {
@@ -307,7 +322,8 @@ func hisWriteDoc(r *Rand, kind string) (doc *hisDoc, err error) {
 			panic("his: stream terminator not found")
 		}
 		end := before + t + len("\nendstream\nendobj")
-		rec := hisWritten{ref: ref, start: before, end: end, val: val, needs: -1, nasty: hisBodyNeedsLength(body)}
+		rec := hisWritten{ref: ref, start: before, end: end, val: val, needs: -1, nasty: hisBodyNeedsLength(body),
+			trailEOL: len(body) > 0 && (body[len(body)-1] == '\n' || body[len(body)-1] == '\r')}
 		doc.objs = append(doc.objs, rec)
 		// an indirect length object follows directly
 		rest := data[end:]
@@ -394,7 +410,32 @@ func hisWriteDoc(r *Rand, kind string) (doc *hisDoc, err error) {
 	addPlain(pagesRef, before, wireNorm(pages))
 	w.GetMeta().Catalog.Pages = pagesRef
 
-	if nLong < 0 {
+	if pad >= 0 {
+		// a filler object of `pad` bytes sweeps the boundaries of the small objects behind it
+		// across the 1024-byte windows of the scanner
+		ref := w.Alloc()
+		before := sink.Len()
+		filler := pdf.String(bytes.Repeat([]byte{'x'}, pad))
+		if err := w.Put(ref, filler); err != nil {
+			return nil, err
+		}
+		addPlain(ref, before, wireNorm(filler))
+		smalls := []pdf.Object{pdf.Integer(r.Intn(1000)), pdf.Name("N"), pdf.Boolean(r.Bool()),
+			pdf.Array{pdf.Integer(1), pdf.Name("a")}, pdf.Dict{"K": pdf.Integer(r.Intn(10))},
+			pdf.Integer(-5), pdf.String("s"), pdf.Array{}, pdf.Name("Last")}
+		for i := len(smalls) - 1; i > 0; i-- {
+			j := r.Intn(i + 1)
+			smalls[i], smalls[j] = smalls[j], smalls[i]
+		}
+		for _, o := range smalls[:4+r.Intn(len(smalls)-3)] {
+			ref := w.Alloc()
+			before := sink.Len()
+			if err := w.Put(ref, o); err != nil {
+				return nil, err
+			}
+			addPlain(ref, before, wireNorm(o))
+		}
+	} else if nLong < 0 {
 		nObj := 2 + r.Intn(6)
 		if small {
 			nObj = 1 + r.Intn(3)
@@ -421,6 +462,7 @@ func hisWriteDoc(r *Rand, kind string) (doc *hisDoc, err error) {
 					if r.Bool() {
 						body = hisEmbed(r, body, 1+r.Intn(2))
 					}
+					body = hisTrailEOL(r, body)
 					if err := putStream(200+i, body); err != nil {
 						return nil, err
 					}
@@ -754,9 +796,9 @@ func replayC20(input string) (bool, string) {
 // hisCutSet: the truncation offsets tried for a document.  all = every offset; otherwise
 // every object boundary (start and end of each object) +-2 bytes, the ends of the file, and
 // nSample interior offsets.
-func hisCutSet(r *Rand, doc *hisDoc, all bool, nSample int) []int {
+func hisCutSet(r *Rand, doc *hisDoc, mode string, nSample int) []int {
 	n := len(doc.bytes)
-	if all {
+	if mode == "all" {
 		cuts := make([]int, n+1)
 		for i := range cuts {
 			cuts[i] = i
@@ -771,10 +813,35 @@ func hisCutSet(r *Rand, doc *hisDoc, all bool, nSample int) []int {
 			cuts = append(cuts, t)
 		}
 	}
-	for _, o := range doc.objs {
+	if mode == "bands" {
+		// every prefix length within 80 bytes of a multiple of the scanner's buffer size, and the
+		// last bytes of the file
+		for m := 1024; m-80 <= n; m += 1024 {
+			for d := -80; d <= 80; d++ {
+				add(m + d)
+			}
+		}
+		for d := 0; d <= 100; d++ {
+			add(n - d)
+		}
+		sort.Ints(cuts)
+		return cuts
+	}
+	// "bounds": every object boundary +-2, every offset up to 80 bytes behind the end of an
+	// object (of every step-th object for the big documents), the file ends, sampled offsets
+	step := 5
+	if len(doc.objs) > 60 {
+		step = 17
+	}
+	for i, o := range doc.objs {
 		for d := -2; d <= 2; d++ {
 			add(o.start + d)
 			add(o.end + d)
+		}
+		if o.trailEOL || i%step == 0 || i >= len(doc.objs)-3 {
+			for d := 3; d <= 80; d++ {
+				add(o.end + d)
+			}
 		}
 	}
 	for d := 0; d <= 2; d++ {
@@ -792,7 +859,7 @@ func runC20(c *Ctx) {
 	r := c.R
 
 	// runDoc: one document, its cuts and its xref overwrites
-	runDoc := func(kind string, seed uint64, allCuts bool, nSample int, owStep int, emitCuts int) {
+	runDoc := func(kind string, seed uint64, cutMode string, nSample int, owStep int, emitCuts int) {
 		doc, err := hisWriteDoc(&Rand{s: seed}, kind)
 		if err != nil {
 			c.Violate("scan", "writer-fails", "the Writer fails: "+err.Error(), fmt.Sprintf("%d %s cut 0", seed, kind))
@@ -815,7 +882,7 @@ func runC20(c *Ctx) {
 			c.Stat("doc_xref_stream")
 		}
 		cr := &Rand{s: seed ^ 0x5bd1e995}
-		cuts := hisCutSet(cr, doc, allCuts, nSample)
+		cuts := hisCutSet(cr, doc, cutMode, nSample)
 		emitEvery := 1
 		if emitCuts > 0 && len(cuts) > emitCuts {
 			emitEvery = (len(cuts) + emitCuts - 1) / emitCuts
@@ -840,6 +907,9 @@ func runC20(c *Ctx) {
 		c.StatN("cuts", len(cuts))
 		// xref damage: single bytes of the cross-reference data and of the startxref value (every
 		// owStep-th), and the whole ranges, overwritten with each garbage byte
+		if owStep <= 0 {
+			return
+		}
 		garbage := []byte{'X', '0', ' ', '\n', 0xff}
 		type span struct{ lo, hi int }
 		var spans []span
@@ -902,7 +972,7 @@ func runC20(c *Ctx) {
 		if di < modelDocs {
 			emit = 1 << 30
 		}
-		runDoc(kind, seed, true, 0, 1, emit)
+		runDoc(kind, seed, "all", 0, 1, emit)
 	}
 
 	// 2. documents with many streams whose /Length is an indirect object written behind them
@@ -919,16 +989,32 @@ func runC20(c *Ctx) {
 			seed := r.U64()
 			big := kind == "i40" || kind == "i40s" || kind == "i25"
 			nSample, owStep, emit := 150, 17, 12
-			all := false
+			all := "bounds"
 			if big {
 				nSample, emit = 60, 0
 			}
 			if c.Thorough {
 				nSample, owStep = 600, 5
-				all = !big && rep < 2
+				if !big && rep < 2 {
+					all = "all"
+				}
 			}
 			runDoc(kind, seed, all, nSample, owStep, emit)
 		}
+	}
+	// 3. window sweep: a filler object of n bytes (n = 0..1100; a seed-dependent tenth of them in
+	// quick) moves the small objects behind it across the scanner's 1024-byte windows; the
+	// listing must be complete at EVERY prefix length within 80 bytes of a multiple of 1024
+	stepN, offN := 9, r.Intn(9)
+	if c.Thorough {
+		stepN, offN = 1, 0
+	}
+	for n := offN; n <= 1100; n += stepN {
+		emit := 0
+		if n%90 == offN {
+			emit = 8
+		}
+		runDoc(fmt.Sprintf("p%d", n), r.U64(), "bands", 0, 0, emit)
 	}
 	c.rep.Exhaustive = true
 
